@@ -3,6 +3,7 @@ package main
 import (
 	"fmt"
 	"go/ast"
+	"go/token"
 	"go/types"
 	"sort"
 	"strings"
@@ -420,4 +421,101 @@ func c16MemberlessCompare(c *Ctx, p *Prog, wir *packages.Package) {
 		}
 	}
 	c.Min(rule, "comparison emitters that loop over a member list", n, 2)
+}
+
+// C16 rule type-branch-not-shadowed (added after a defect found by Wa-vs-Go probing: the type checker's missingMethod
+// returns early for every operand that is not a *Pointer — only pointer types have methods in Wa — and a few lines
+// below handles operands whose underlying type is an *Interface; interfaces are not pointers, so that branch was dead
+// and assigning a value of one interface type to another interface type was rejected).
+//
+// In a function of the type checker, an unconditional-on-the-class exit `if _, ok := V.(*A); !ok { return … }` must
+// not precede a branch that handles `V` (or V.Underlying()) being a *B with B another type than A, unless the exit
+// itself excludes B (tests that V is not a *B).
+func c16TypeBranchShadow(c *Ctx, p *Prog, tp *packages.Package) {
+	const rule = "type-branch-not-shadowed"
+	_ = tp.TypesInfo
+	n := 0
+	for _, name := range sortedDeclNames(tp) {
+		fd := AllFuncDecls(tp)[name]
+		if fd.Body == nil {
+			continue
+		}
+		// exits: position, operand text, asserted type, the types the exit's own body excludes
+		type exit struct {
+			pos      token.Pos
+			operand  string
+			typ      string
+			excludes map[string]bool
+		}
+		var exits []exit
+		ast.Inspect(fd.Body, func(nd ast.Node) bool {
+			ifs, ok := nd.(*ast.IfStmt)
+			if !ok || ifs.Init == nil {
+				return true
+			}
+			as, ok := ifs.Init.(*ast.AssignStmt)
+			if !ok || len(as.Rhs) != 1 || len(as.Lhs) != 2 {
+				return true
+			}
+			ta, ok := ast.Unparen(as.Rhs[0]).(*ast.TypeAssertExpr)
+			if !ok || ta.Type == nil {
+				return true
+			}
+			okID, _ := as.Lhs[1].(*ast.Ident)
+			if okID == nil || strings.ReplaceAll(types.ExprString(ifs.Cond), " ", "") != "!"+okID.Name {
+				return true
+			}
+			// the body returns, possibly under tests that exclude other types
+			returnsAlways := false
+			excl := map[string]bool{}
+			for _, s := range ifs.Body.List {
+				switch x := s.(type) {
+				case *ast.ReturnStmt:
+					returnsAlways = true
+				case *ast.IfStmt:
+					// if _, isB := V…(*B); !isB { return }
+					if ias, ok := x.Init.(*ast.AssignStmt); ok && len(ias.Rhs) == 1 {
+						if ita, ok := ast.Unparen(ias.Rhs[0]).(*ast.TypeAssertExpr); ok && ita.Type != nil && strings.HasPrefix(strings.ReplaceAll(types.ExprString(x.Cond), " ", ""), "!") {
+							for _, bs := range x.Body.List {
+								if _, isRet := bs.(*ast.ReturnStmt); isRet {
+									excl[types.ExprString(ita.Type)] = true
+									returnsAlways = true
+								}
+							}
+						}
+					}
+				}
+			}
+			if returnsAlways {
+				exits = append(exits, exit{ifs.Pos(), types.ExprString(ta.X), types.ExprString(ta.Type), excl})
+			}
+			return true
+		})
+		if len(exits) == 0 {
+			continue
+		}
+		// later branches on the same operand (or its Underlying()) with another asserted type
+		ast.Inspect(fd.Body, func(nd ast.Node) bool {
+			ta, ok := nd.(*ast.TypeAssertExpr)
+			if !ok || ta.Type == nil {
+				return true
+			}
+			operand := strings.TrimSuffix(types.ExprString(ta.X), ".Underlying()")
+			typ := types.ExprString(ta.Type)
+			for _, e := range exits {
+				if ta.Pos() <= e.pos || operand != e.operand || typ == e.typ {
+					continue
+				}
+				// only concrete pointer-to-struct assertions are disjoint classes
+				if !strings.HasPrefix(typ, "*") || !strings.HasPrefix(e.typ, "*") {
+					continue
+				}
+				n++
+				c.Check(e.excludes[typ], rule, name+": "+operand+".("+typ+") after the exit for non-"+e.typ, p.Pos(ta.Pos()), "the exit leaves "+typ+" operands alone",
+					name+" returns early for every "+operand+" that is not a "+e.typ+" ("+p.Pos(e.pos)+") and then handles "+operand+" being a "+typ+": a "+typ+" is never a "+e.typ+", so this branch cannot be reached — operands of that type get the early answer (a value of interface type is rejected as \"missing method\" where Go accepts it)")
+			}
+			return true
+		})
+	}
+	c.Min(rule, "type branches after a type-class exit in the type checker", n, 1)
 }
